@@ -3,6 +3,8 @@ from pyvc.contracts import contract, spec
 
 U = "fparser.two.utils:"
 
+spec("given", "s:str?", "bool", "s is not None and s != ''", macro=True)
+
 RESTORE_INV = {
     "restoring": "cons(content[:len(content) - {k}]) + view == old(view)",
     "scope": "scope_stack == old(scope_stack) and REP(SYMBOL_TABLES)",
@@ -21,6 +23,9 @@ contract(U + "BlockBase.match",
                enable_where_construct_hook="bool", strict_order="bool", strict_match_names="bool"),
     returns="tuple[list[ref:Base]]?",
     not_assumed=["tables.nomatch.nothing_lost"],
+    clause_props={"post.tables": ["C09", "C16"], "raises.*.tables": ["C09", "C16"], "post.scope": ["C09", "C16"], "raises.*.scope": ["C09", "C16"],
+                  "post.end.": ["C08"], "post.names.": ["C08"], "post.labels.": ["C08"],
+                  "post.restore": ["C11", "C12", "C20"], "post.order": ["C11", "C12", "C10"]},
     bind={"SYMBOL_TABLES": "ref:SymbolTables", "di.C99Preprocessor.match_cpp_directive": "cls"},
     locals=dict(content="list[ref:Base]", classes="list[cls]", comments="list[cls]"),
     requires={
@@ -47,6 +52,16 @@ contract(U + "BlockBase.match",
         "order": "implies(result is not None, old(view) == cons(result[0]) + view)",
         "tables.nomatch.nothing_left": "implies(result is None, dict_subset(SYMBOL_TABLES._symbol_tables, old(SYMBOL_TABLES._symbol_tables)))",
         "tables.nomatch.nothing_lost": "implies(result is None, dict_subset(old(SYMBOL_TABLES._symbol_tables), SYMBOL_TABLES._symbol_tables))",
+    },
+    ensures_local={
+        # C08 (U8c/d/e): a block with an end class is returned only if its END was found, with agreeing names and labels
+        "end.required@ret4": "implies(result is not None and endcls is not None, found_end and had_match)",
+        "names.agree@ret4": "implies(result is not None and found_end and match_names, "
+                       "not (given(end_name) and not given(start_name)) "
+                       "and not (given(start_name) and given(end_name) and start_name.lower() != end_name.lower()) "
+                       "and not (strict_match_names and given(start_name) and not given(end_name)))",
+        "labels.agree@ret4": "implies(result is not None and found_end and match_labels, start_label == end_label)",
+        "something_matched@ret4": "implies(result is not None, len(content) > 0 and result[0] == content)",
     },
     raises={"*": {
         "scope.exc": "scope_stack == old(scope_stack)",
